@@ -183,6 +183,7 @@ impl Session {
         }
         nreprs.push(("U", Repr::U(&inp.needle)));
 
+        let _ = nucleo_matcher::verif::take_slab_views();
         let mut out = String::with_capacity(256 + 8 * (inp.hay.len() + inp.needle.len()));
         let _ = write!(
             out,
@@ -249,6 +250,24 @@ impl Session {
                     blocks.push(outs);
                 }
             }
+        }
+        // extents of every view the matcher formed into its scratch allocation while serving this record
+        let mut views = nucleo_matcher::verif::take_slab_views();
+        views.sort_by_key(|v| (v.haystack_len, v.needle_len, v.char_size, v.views));
+        views.dedup();
+        out.push_str("],\"slab\":[");
+        for (k, v) in views.iter().enumerate() {
+            if k > 0 {
+                out.push(',');
+            }
+            let _ = write!(out, "{{\"h\":{},\"n\":{},\"csz\":{},\"size\":{},\"views\":[", v.haystack_len, v.needle_len, v.char_size, v.slab_size);
+            for (j, (o, l)) in v.views.iter().enumerate() {
+                if j > 0 {
+                    out.push(',');
+                }
+                let _ = write!(out, "[{},{}]", o, l);
+            }
+            out.push_str("]}");
         }
         let _ = write!(out, "],\"hist\":[{}],\"ncalls\":{}}}", hist, blocks.len() * 24);
         out
